@@ -5,6 +5,7 @@ package main
 
 import (
 	"fmt"
+	"strings"
 	"go/types"
 
 	"golang.org/x/tools/go/ssa"
@@ -226,13 +227,13 @@ func init() {
 	// to leave every document node alone (the yq implementations of Less are verified separately)
 	sortModel := func(g *gen, st *state, c *ssa.CallCommon, a []string, in ssa.Instruction) []string {
 		g.newEpoch(st, func(name, r string) string {
-			if g.isDocHeap(name) || name == listLenHeap || name == listValHeap {
-				if r == "" {
-					return "true"
-				}
-				return "weak"
+			if strings.HasPrefix(name, "E.") && !g.isDocHeap(name) {
+				return g.privateKeep(name, r) // Swap permutes the elements of the argument
 			}
-			return "false"
+			if r == "" {
+				return "true"
+			}
+			return "weak"
 		}, true)
 		return nil
 	}
